@@ -653,6 +653,14 @@ def rule_r6(ctx: Ctx, m: ExprModel) -> None:
     ctx.check(isinstance(got, QV) and got.term == "x", EXPR + "_primitive.Rational", "Rational(x).native_value is x", "the value is held as the exact number given", "pydsdl/_expression/_primitive.py", repr(got))
 
 
+def rule_r7_identifiers(ctx: Ctx) -> None:
+    """an identifier in an expression is an operand like any other: its value is that of the constant it names"""
+    from . import c08
+
+    ctx.rule("C04.R7", "an identifier evaluates to the value of the constant of that name in the current section, for every value a constant can have (false, 0 and the empty string included); exactly the unknown identifiers are rejected (the builder driven through its public callbacks, constants holding real instances of the expression classes)", min_instances=1)
+    c08.rule_identifiers(ctx, "C04.R7", parts=("constants",))
+
+
 def run(ctx: Ctx) -> None:
     g = Grammar.load(ctx.repo)
     ctx.analysed["grammar_rules"] = len(g.rules)
@@ -662,6 +670,7 @@ def run(ctx: Ctx) -> None:
     ctx.attempt(rule_r2, ctx, g)
     ctx.attempt(rule_r3_r4_r5, ctx, g, m)
     ctx.attempt(rule_r6, ctx, m)
+    ctx.attempt(rule_r7_identifiers, ctx)
     ctx.assume("fractions.Fraction and the operator module are exact (trusted stdlib); a fractional power may yield a float (outside the property's quantifier)")
     ctx.assume("symbolic operands: an arbitrary integer, an arbitrary non-integer, zero, arbitrary strings, the two booleans, every pair of non-empty subsets of a three-element pool")
     ctx.undecided("the arithmetic of Fraction itself, the values of string escapes")
